@@ -65,6 +65,12 @@ func (t *TemplateDef) Affinity() *corev1.Affinity {
 	case "nameNotN1":
 		// an exclusion by node name: valid, unusual; the per-node pin must replace it
 		return req(corev1.NodeSelectorTerm{MatchFields: []corev1.NodeSelectorRequirement{expr("metadata.name", corev1.NodeSelectorOpNotIn, "n01")}})
+	case "hasZoneNotN1":
+		// one term: a label expression AND a field requirement
+		return req(corev1.NodeSelectorTerm{
+			MatchExpressions: []corev1.NodeSelectorRequirement{expr("zone", corev1.NodeSelectorOpExists)},
+			MatchFields:      []corev1.NodeSelectorRequirement{expr("metadata.name", corev1.NodeSelectorOpNotIn, "n01")},
+		})
 	case "preferred-only":
 		return &corev1.Affinity{NodeAffinity: &corev1.NodeAffinity{PreferredDuringSchedulingIgnoredDuringExecution: []corev1.PreferredSchedulingTerm{{Weight: 1, Preference: corev1.NodeSelectorTerm{MatchExpressions: []corev1.NodeSelectorRequirement{expr("zone", corev1.NodeSelectorOpIn, "a")}}}}}}
 	}
@@ -409,7 +415,7 @@ func genTemplate(r *rand.Rand, letter string, fancy float64) *TemplateDef {
 		}
 	}
 	if chance(r, fancy) {
-		t.AffinityKind = pick(r, "zoneA", "notPoolY", "hasZone", "noExclude", "two-terms", "preferred-only", "nameNotN1")
+		t.AffinityKind = pick(r, "zoneA", "notPoolY", "hasZone", "noExclude", "two-terms", "preferred-only", "nameNotN1", "hasZoneNotN1")
 	}
 	if chance(r, fancy) {
 		t.Tolerate = []string{pick(r, "dedicated", "evict", "*")}
